@@ -67,7 +67,11 @@ def _worker(item):
     try:
         pipe = ci == 0 and par.G.get('pipe_case')
         text = None if pipe else (('C13 CUBE %d ' % ci) * 300)[:3200].encode('ascii')
-        inputs.write_segy(sgy, cube, il, xl, 4.0 * np.arange(nz), text=text)
+        # where the sample interval is recorded: binary header and trace headers (usual), trace headers only (binary word 0), or the two
+        # disagreeing (segyio then falls back to 4000 us) - the sample axis and tools.dt follow segyio's rule
+        kcube = CUBES.index(cube_spec) if cube_spec in CUBES else 0
+        binf = {1: {segyio.BinField.Interval: 0}, 3: {segyio.BinField.Interval: 3000}}.get(kcube)
+        inputs.write_segy(sgy, cube, il, xl, 4.0 * np.arange(nz), text=text, bin_fields=binf)
         writers.segy_to_sgz(sgy, sgz, 16, None, header_detection='thorough')
         with env.quiet():
             with SgzReader(sgz) as r:
